@@ -4,23 +4,27 @@
 (* connections (neutrino.go).  One action per step of a peer's life as the  *)
 (* client's goroutines execute it:                                          *)
 (*                                                                          *)
-(*   Connect(p,i,j)   connmgr dialled (i,j) and calls outboundPeerConnected *)
-(*                    (:1573): IsBanned(addr) => connmgr.Remove (conn       *)
-(*                    closed); PeerByAddr(addr) # nil => same; else a       *)
-(*                    ServerPeer is created and the handshake starts        *)
-(*   Version(p,f)     peer.readRemoteVersionMsg -> ServerPeer.OnVersion     *)
-(*                    (:233): services lack SFNodeWitness or SFNodeCF =>    *)
+(*   Connect(p,i,j)   connmgr dialled (i,j) and calls                       *)
+(*                    ChainService.outboundPeerConnected: IsBanned(addr) => *)
+(*                    connmgr.Remove / Disconnect (conn closed);            *)
+(*                    PeerByAddr(addr) # nil => same; else a ServerPeer is  *)
+(*                    created and the handshake starts                      *)
+(*   Version(p,f)     peer.readRemoteVersionMsg -> ServerPeer.OnVersion:    *)
+(*                    services lack SFNodeWitness or SFNodeCF =>            *)
 (*                    BanPeer(addr, NoCompactFilters) + sp.Disconnect()     *)
-(*   VerAck(p)        OnVerAck (:226) -> AddPeer -> peerHandler ->          *)
-(*                    handleAddPeerMsg (:1353): IsBanned(sp.Addr()) =>      *)
-(*                    Disconnect, else the peer joins peerState             *)
-(*   Misbehave(i,j,k) a validation site (query.go:879/894 invalid block,    *)
-(*                    blockmanager.go:786/816/1543 invalid filter header,   *)
-(*                    :937/1456/1561 invalid filter checkpoint) calls       *)
-(*                    BanPeer(addr, reason) (:1102): the ban is recorded    *)
-(*                    for the IP (port stripped, banman.ParseIPNet) and, in *)
-(*                    a goroutine, PeerByAddr(addr) is disconnected - the   *)
-(*                    ONE connected peer whose "ip:port" string equals addr *)
+(*   VerAck(p)        ServerPeer.OnVerAck -> AddPeer -> peerHandler ->      *)
+(*                    handleAddPeerMsg: IsBanned(sp.Addr()) => Disconnect,  *)
+(*                    else the peer joins peerState                         *)
+(*   Misbehave(i,j,k) a validation site (ChainService.GetBlock in query.go: *)
+(*                    invalid block; getUncheckpointedCFHeaders,            *)
+(*                    resolveConflict: invalid filter header;               *)
+(*                    checkpointedCFHeadersQuery.handleResponse,            *)
+(*                    resolveConflict: invalid filter checkpoint) calls     *)
+(*                    ChainService.BanPeer(addr, reason): the ban is        *)
+(*                    recorded for the IP (port stripped by                 *)
+(*                    banman.ParseIPNet) and, in a goroutine,               *)
+(*                    PeerByAddr(addr) is disconnected - the ONE connected  *)
+(*                    peer whose "ip:port" string equals addr               *)
 (*   Unban(i)         the ban is lifted in the store                        *)
 (*   Drop(p)          the remote side closes the connection                 *)
 (*                                                                          *)
